@@ -161,7 +161,7 @@ class RIPEntry (packet_base):
   def netmask (self, netmask):
     if isinstance(netmask, int):
       netmask = cidr_to_netmask(netmask)
-    elif not isintance(netmask, IPAddr):
+    elif not isinstance(netmask, IPAddr):
       netmask = IPAddr(netmask)
     self._netmask = netmask
 
